@@ -4,13 +4,14 @@ from .. import gen
 from ..core import hx
 from .proto import flat_view
 
-STREAM_FAULTS = ["sendS", "recvS", "sendR", "recvR"]
+STREAM_FAULTS = ["sendS", "recvS", "sendR", "recvR", "dieR", "dieS"]
 
 
 class FaultSync(Suite):
     name = "faults"
     needs_root = True
-    rule = ("one injected fault per run: n-th SendMsg/RecvMsg on either endpoint fails (and every later one), context cancelled after k delivered packets, "
+    rule = ("one injected fault per run: n-th SendMsg/RecvMsg on either endpoint fails (and every later one), the peer's process dies at its n-th call (its "
+            "packets are lost, this end reads end-of-stream), context cancelled after k delivered packets, "
             "walk error at entry k, read error after j bytes of a file, hasher/notify callback error at call k, SIGKILL of the process after k packets; "
             "the stream is torn down 150 ms after the start if the calls are still running; then a fault-free transfer into whatever was left. "
             "Small trees with every position (thorough) / sampled positions (quick), and wide trees (140..600 entries: > 132 requests, > 2 x 128 queued stats, early and late faults); non-trivial = distinct (tree, fault)")
